@@ -43,6 +43,7 @@ type Contract struct {
 	Lets     map[string]*Let
 	LetOrder []string
 	Modifies []string
+	GhostMod []string // ghost call-record variables: havocked at call sites, updated only by [ghost] ensures
 	ModLoop  map[int][]string
 	Refines  string
 	Opts     map[string]string
@@ -128,7 +129,7 @@ func newSpecs() *Specs {
 
 var clauseKW = map[string]bool{
 	"requires": true, "ensures": true, "modifies": true, "let": true, "invariant": true,
-	"decreases": true, "prefer": true, "crash_invariant": true, "assumed": true, "returns": true, "refines": true, "verify": true, "opt": true, "loopmodifies": true,
+	"decreases": true, "prefer": true, "crash_invariant": true, "assumed": true, "returns": true, "refines": true, "verify": true, "ghostmodifies": true, "opt": true, "loopmodifies": true,
 }
 
 type rawLine struct {
@@ -431,6 +432,9 @@ func splitTop(s string, sep byte) []string {
 // into the ssa full name using imports / pkgPath.
 func (sp *Specs) qualify(name, pkgPath string) string {
 	name = strings.TrimSpace(name)
+	if strings.HasPrefix(name, "field:") {
+		return "field:" + sp.qualify(name[6:], pkgPath)
+	}
 	q := func(id string) string { // id = alias.Name or Name or full/path.Name
 		if strings.Contains(id, "/") {
 			return id
@@ -582,6 +586,12 @@ func (sp *Specs) parseClause(c *Contract, it rawLine) error {
 		for _, p := range splitTop(body, ',') {
 			if p != "" {
 				c.Modifies = append(c.Modifies, p)
+			}
+		}
+	case "ghostmodifies":
+		for _, p := range splitTop(body, ',') {
+			if p != "" {
+				c.GhostMod = append(c.GhostMod, p)
 			}
 		}
 	case "loopmodifies":
